@@ -173,6 +173,9 @@ def cases(tier, props=("C03", "C02", "C01", "C14", "C13"), which="all"):
         G.append(((3,), (2,), dict(base)))
         G.append(((2, 1), (), dict(base, orientations=["after"], kernel="harmonic", normalize_windows=False, radii=[1])))
         G.append(((3,), (2,), dict(base, radii=[1, 2], orientations=["before", "after"], kernel="geometric", normalize_windows=False)))
+        # a before / after window declared after a directional one: window index and column block diverge
+        G.append(((2,), (), dict(base, radii=[1, 1], orientations=["directional", "before"], normalize_windows=False)))
+        G.append(((2,), (), dict(base, radii=[1, 2, 1], orientations=["after", "directional", "after"], normalize_windows=False)))
         G.append(((3,), (2,), dict(base, mask=MASK, excluded=True, orientations=["after"], normalize_windows=False)))
         G.append(((3,), (), dict(base, mask=MASK, nullify=True, excluded=True, orientations=["directional"], radii=[1])))
         G.append(((2, 2), (1,), dict(base, n_threads=2, orientations=["after"], normalize_windows=False, mem="1k")))
@@ -183,6 +186,7 @@ def cases(tier, props=("C03", "C02", "C01", "C14", "C13"), which="all"):
                 for nwn in (False, True):
                     G.append((f, t, dict(base, kernel=k, normalize_windows=nwn)))
                     G.append((f, t, dict(base, kernel=k, normalize_windows=nwn, radii=[1, 2], orientations=["before", "directional"])))
+                    G.append((f, t, dict(base, kernel=k, normalize_windows=nwn, radii=[2, 1], orientations=["directional", "after"])))
             for nt in (2, 3, 4):
                 for mem in ("1k", "0.5 GiB"):
                     G.append((f, t, dict(base, n_threads=nt, mem=mem, orientations=["after"], normalize_windows=False)))
